@@ -26,7 +26,9 @@ def run(ctx):
                "variable-carrying operands raise; node classes without a handler "
                "raise; sums accumulate every child")
     ctx.decide("solve_affine_equations_for: the integer division by the pivot is "
-               "dominated by the uniqueness and |pivot| == 1 refusals")
+               "dominated by the uniqueness and |pivot| == 1 refusals; every "
+               "floor division in gaussian_elimination is exact by construction "
+               "(lcm by its own argument, row by a gcd over that row)")
     ctx.decline("correctness of the coefficients and of gaussian_elimination "
                 "(numeric)")
     ctx.assume("stride dictionaries map 1 to the constant term (module "
@@ -188,6 +190,55 @@ def run(ctx):
            "a constant is its own constant term")
 
     _solver(ctx, model)
+    _exact_divisions(ctx, model)
+
+
+def _exact_divisions(ctx, model):
+    """fraction-free elimination: every floor division in gaussian_elimination
+    must be exact by construction -- an lcm divided by one of its own arguments,
+    or a row divided by a gcd that was taken over (at least) that row"""
+    m, fn = model.func(f"{ALG}:gaussian_elimination")
+    loc = m.loc(fn)
+    defs = {}
+    for st in ast.walk(fn):
+        if isinstance(st, ast.Assign) and len(st.targets) == 1 and isinstance(
+                st.targets[0], ast.Name):
+            defs.setdefault(st.targets[0].id, []).append(st.value)
+    n = 0
+    for node in ast.walk(fn):
+        num = den = None
+        if isinstance(node, ast.BinOp) and isinstance(node.op, ast.FloorDiv):
+            num, den = node.left, node.right
+        elif isinstance(node, ast.AugAssign) and isinstance(node.op, ast.FloorDiv):
+            num, den = node.target, node.value
+        if num is None:
+            continue
+        n += 1
+        nsrc, dsrc = ast.unparse(num), ast.unparse(den)
+        ok = False
+        why = ""
+        if isinstance(num, ast.Name) and num.id in defs:
+            # ell // x  with ell = lcm(..., x, ...)
+            for d in defs[num.id]:
+                if isinstance(d, ast.Call) and ast.unparse(d.func).endswith("lcm") \
+                        and dsrc in [ast.unparse(a) for a in d.args]:
+                    ok = True
+            why = (f"'{nsrc} // {dsrc}': {nsrc} is not an lcm that has {dsrc} "
+                   "among its arguments, so the division need not be exact")
+        if isinstance(den, ast.Name) and den.id in defs and not ok:
+            # row // g  with g = gcd over entries of that row
+            for d in defs[den.id]:
+                if isinstance(d, ast.Call) and "gcd" in ast.unparse(d.func):
+                    inner = ast.unparse(d)
+                    if f"in {nsrc}" in inner or nsrc in [
+                            ast.unparse(a) for a in d.args]:
+                        ok = True
+            why = (f"'{nsrc} //= {dsrc}': {dsrc} is not a gcd taken over the "
+                   f"entries of {nsrc}, so dividing {nsrc} by it silently floors "
+                   "(a non-integral system is then 'solved' instead of refused)")
+        ctx.ob(f"P/gaussian_elimination/exact-division:{nsrc}//{dsrc}", ok, loc,
+               f"{nsrc} // {dsrc} is exact by construction" if ok else why)
+    ctx.floor("floor divisions in gaussian_elimination", n, 4)
 
 
 def _solver(ctx, model):
